@@ -20,7 +20,7 @@ RULE = ("Hypothesis draws (store algorithm, content with boundary-biased size, k
         "(kind, algorithm, size class, offset class, shape of the history).")
 ASSUMPTIONS = ["contents up to 5*8192+1 bytes", "single thread", "local POSIX file system (tmpfs)"]
 
-OTHERS = ["target:pid", "the/target:pid.2", "THE/TARGET:PID"]  # a suffix, an extension and a case variant of the target pid
+OTHERS = ["target:pid", "the/target:pid.2", "THE/TARGET:PID", "th\u00e9/target:pid\u20acx"]  # a suffix, an extension, a case variant and a non-ASCII variant of the target pid
 TARGET = "the/target:pid"
 
 
@@ -41,6 +41,14 @@ def _other_ops(algo):
     )
 
 
+def _sharing_ops(algo):
+    """Focused alphabet: the other pids share and un-share the TARGET's content (the cid list is rewritten around it)."""
+    return ops.weighted(
+        (4, ops.store_op(OTHERS, 1, allow_none=False, validation=False)),
+        (3, ops.delete_op(OTHERS)),
+        (1, ops.tag_op(OTHERS, 1, algo, never=False)))
+
+
 @st.composite
 def _case(draw, tier):
     cfg = draw(gen.store_cfgs())
@@ -52,9 +60,10 @@ def _case(draw, tier):
         "file", "bytesio", "bufreader") else 0
     with_pid = draw(st.sampled_from([True, True, True, False]))
     reject_first = draw(st.sampled_from([None, None, None, "size", "cks"])) if with_pid else None
-    hist = draw(st.lists(_other_ops(cfg["algo"]), min_size=0, max_size=10)) if with_pid else []
+    alphabet = _sharing_ops if draw(st.integers(0, 3)) == 0 else _other_ops
+    hist = draw(st.lists(alphabet(cfg["algo"]), min_size=0, max_size=10)) if with_pid else []
     # calls on the other pids BEFORE the target is stored (they may own the content first)
-    pre = draw(st.lists(_other_ops(cfg["algo"]), min_size=0, max_size=3)) if with_pid else []
+    pre = draw(st.lists(alphabet(cfg["algo"]), min_size=0, max_size=3)) if with_pid else []
     return {"cfg": cfg, "contents": [content, other], "docs": [{"hex": "6d657461"}], "kind": kind,
             "offset": offset, "with_pid": with_pid, "reject_first": reject_first, "ops": hist, "pre": pre}
 
